@@ -1,7 +1,7 @@
 #!/usr/bin/env python3
 """Confirm a property-PRESERVING change and record whether the registered check stays silent on it.
 
-usage: tools/verify_benign.py <ID> <X> [--checks C01,C02] [--tier quick] [--root /tmp/benign]
+usage: tools/verify_benign.py <ID> <X> [--checks C01,C02] [--tier quick] [--root /tmp/benign] [--tag b2]
 
 For <root>/<ID>/{X.diff, demo_X.py, meta_X.json} and the scratch worktree <root>/<ID>/wt:
   1. worktree clean -> demo must exit 0
@@ -35,6 +35,9 @@ def main():
         tier = sys.argv[sys.argv.index("--tier") + 1]
     if "--root" in sys.argv:
         root = sys.argv[sys.argv.index("--root") + 1]
+    tag = ""
+    if "--tag" in sys.argv:
+        tag = sys.argv[sys.argv.index("--tag") + 1] + "-"
     base = f"{root}/{pid}"
     wt = f"{base}/wt"
     diff, demo, meta = f"{base}/{x}.diff", f"{base}/demo_{x}.py", f"{base}/meta_{x}.json"
@@ -76,7 +79,7 @@ def main():
         out["author_meta"] = {"error": str(e)}
     out["what"] = out["author_meta"].get("what")
     out["kind"] = out["author_meta"].get("kind")
-    dst = f"/verif/benign/{pid}-{x}"
+    dst = f"/verif/benign/{pid}-{tag}{x}"
     if ok:
         os.makedirs(dst, exist_ok=True)
         shutil.copy(diff, f"{dst}/patch.diff")
